@@ -459,7 +459,14 @@ func (c *trCtx) createCall(x *ast.CallExpr) (string, bool) {
 			args = append(args, c.exprAs(a, p.Type()))
 		}
 	}
+	n0 := c.norder
 	args = append(args, c.passExtras(tf)...)
+	if !trCreateUnitSet[tf.unit] && c.norder > n0 {
+		// the callee's own `ext` parameters (results of ITS calls of untranslated functions, whose arguments are not translated) are
+		// handed through as parameters of this function; which calls they stand for is pinned by source text
+		c.externals = append(c.externals, "extra"+itoa(n0+1)+"…extra"+itoa(c.norder)+" = the results of "+strings.Join(c.createExtTexts(tf), ", ")+
+			" in "+trSrcText(c.t.l.fset, x))
+	}
 	c.fn.deps = append(c.fn.deps, tf)
 	name := c.t.qname(c.unit(), tf.unit, tf.leanName)
 	app := name
@@ -629,6 +636,51 @@ func (c *trCtx) createTypeSwitch(x *ast.TypeSwitchStmt, k trK) (trLines, bool) {
 	out = append(out, "| _ =>")
 	out = append(out, rest.indent(2)...)
 	return trWrapPre(pre, out), true
+}
+
+// createExtTexts: the calls of untranslated functions of /repo in the body of a translated function of another unit, in source order
+func (c *trCtx) createExtTexts(tf *trFunc) []string {
+	var res []string
+	info := tf.pkg.info
+	ast.Inspect(tf.decl.Body, func(n ast.Node) bool {
+		call, ok := n.(*ast.CallExpr)
+		if !ok {
+			return true
+		}
+		var fo *types.Func
+		switch f := trUnparen(call.Fun).(type) {
+		case *ast.Ident:
+			fo, _ = info.Uses[f].(*types.Func)
+		case *ast.SelectorExpr:
+			if sel, ok := info.Selections[f]; ok {
+				fo, _ = sel.Obj().(*types.Func)
+			} else {
+				fo, _ = info.Uses[f.Sel].(*types.Func)
+			}
+		}
+		if fo == nil || fo.Pkg() == nil || !strings.HasPrefix(fo.Pkg().Path(), trKnutPath) {
+			return true
+		}
+		if _, pinned := trPinned[fo.Origin().FullName()]; pinned {
+			return true
+		}
+		if g := c.t.funcs[fo.Origin()]; g != nil && !trCreateUnitSet[g.unit] {
+			return true
+		}
+		res = append(res, trSrcText(c.t.l.fset, call))
+		return false // the receiver chain `reg.Accounts()` belongs to the call
+	})
+	return res
+}
+
+// createExternalsDef (hook of translateFunc): the source texts of the calls behind the `ext`/`extra` parameters, as a definition that the
+// agreement module pins (`example : F.externals = […] := rfl`): their arguments are not part of the translated term
+func (c *trCtx) createExternalsDef() string {
+	if !c.createMode() || len(c.externals) == 0 {
+		return ""
+	}
+	return "\n/-- the calls of untranslated functions behind the `ext`/`extra` parameters (source text; pinned by the agreement module) -/\ndef " +
+		c.fn.leanName + ".externals : List String := " + trLeanStrList(c.externals) + "\n"
 }
 
 // trCreateImports: the prelude modules of this file, when the generated text uses them
